@@ -33,6 +33,8 @@ FUNCTIONS = ["Operator.apply", "Operator.ground/_ground_conditional_effects/_app
 def main(tier: str) -> int:
     rep = runner.Report("C03", tier, "other")
     tasks = families.apply_tasks(tier, runner.seed())
+    n_once = len(tasks)
+    tasks += families.reapply_tasks(tier, runner.seed())
     tw = twins()
     results = runner.pmap(callsym.run_task, tasks + tw, chunksize=4)
     summarize(rep, tasks, results[: len(tasks)], "apply")
@@ -42,6 +44,7 @@ def main(tier: str) -> int:
     rep.coverage["vacuity_twins"] = {"run": len(tw), "violated_as_required": len(tw) - len(rep.twins_failed)}
     rep.coverage["functions_executed_symbolically"] = FUNCTIONS
     rep.coverage["shims"] = SHIMS
+    rep.coverage["applied_twice_by_the_same_operator_object"] = len(tasks) - n_once
     rep.coverage["bounds"] = {
         "programs": "curated core + VERIF_SEED-sampled effects: <=3 unconditional literals/numeric updates, <=2 when groups "
                     "(<=2 condition literals, <=2 results), <=1 forall-when over t1/t3; half of the sampled programs also "
@@ -49,6 +52,9 @@ def main(tier: str) -> int:
         "iteration_orders": "natural + reversed (quick); natural + 3 permutations (thorough) of discrete/numeric/"
                             "conditional/universal effect sets, grounded effect groups and the problem-object table",
         "argument_tuples_per_program": 3 if tier == "quick" else 4,
+        "re_application": "programs with a numeric effect are also applied twice in a row by the same Operator object "
+                          "(every third such program in the quick tier, all in the thorough tier); oracle = the call "
+                          "semantics composed with itself; both applications assumed applicable and consistent",
         "symbolic_atoms_cap": 8 if tier == "quick" else 11,
         "max_paths_per_task": 1500 if tier == "quick" else 6000,
         "outside": "float rounding (reals, not doubles); inconsistent effect sets (assumed away, counted vacuous when "
